@@ -221,12 +221,21 @@ func (s *AttrSpec) decode(content *hcl.BodyContent, blockLabels []blockLabel, ct
 
 	convVal, err := convert.Convert(val, s.Type)
 	if err != nil {
+		errDetail := err.Error()
+		if val.ContainsMarked() {
+			// The conversion error describes the offending part of the value
+			// by its map keys and attribute names. We don't know what any
+			// marks might represent up at the calling application layer (such
+			// as a value being "sensitive"), so we must not reveal parts of
+			// a marked value and only name the required type.
+			errDetail = fmt.Sprintf("%s required", s.Type.FriendlyName())
+		}
 		diags = append(diags, &hcl.Diagnostic{
 			Severity: hcl.DiagError,
 			Summary:  "Incorrect attribute value type",
 			Detail: fmt.Sprintf(
 				"Inappropriate value for attribute %q: %s.",
-				s.Name, err.Error(),
+				s.Name, errDetail,
 			),
 			Subject:     attr.Expr.Range().Ptr(),
 			Context:     hcl.RangeBetween(attr.NameRange, attr.Expr.Range()).Ptr(),
@@ -1297,12 +1306,18 @@ func (s *BlockAttrsSpec) decode(content *hcl.BodyContent, blockLabels []blockLab
 		attrVal, attrDiags := attr.Expr.Value(ctx)
 		diags = append(diags, attrDiags...)
 
+		givenVal := attrVal
 		attrVal, err := convert.Convert(attrVal, s.ElementType)
 		if err != nil {
+			errDetail := err.Error()
+			if givenVal.ContainsMarked() {
+				// As in AttrSpec: do not describe parts of a marked value.
+				errDetail = fmt.Sprintf("%s required", s.ElementType.FriendlyName())
+			}
 			diags = append(diags, &hcl.Diagnostic{
 				Severity:    hcl.DiagError,
 				Summary:     "Invalid attribute value",
-				Detail:      fmt.Sprintf("Invalid value for attribute of %q block: %s.", s.TypeName, err),
+				Detail:      fmt.Sprintf("Invalid value for attribute of %q block: %s.", s.TypeName, errDetail),
 				Subject:     attr.Expr.Range().Ptr(),
 				Context:     hcl.RangeBetween(attr.NameRange, attr.Expr.Range()).Ptr(),
 				Expression:  attr.Expr,
